@@ -257,8 +257,8 @@ func significant(toks []token) []token {
 		out = out[1:]
 	}
 	// trailing comments, then one semicolon, then (comments in front of the semicolon are interior: kept)
-	for len(out) > 0 && out[len(out)-1].kind == tComment {
-		out = out[:len(out)-1]
+	for len(out) > 0 && out[len(out)-1].kind == tComment && !strings.HasPrefix(out[len(out)-1].text, "/*!") {
+		out = out[:len(out)-1] // (a MySQL executable comment is part of the statement)
 	}
 	if len(out) > 0 && out[len(out)-1].kind == tPunct && out[len(out)-1].text == ";" {
 		out = out[:len(out)-1]
@@ -435,8 +435,8 @@ func applyVariant(s string, pg bool, ops []VarOp) string {
 			sig := nonWSIndex(toks)
 			// position of the last token that is not a trailing comment
 			end := len(sig) - 1
-			for end >= 0 && toks[sig[end]].kind == tComment {
-				end--
+			for end >= 0 && toks[sig[end]].kind == tComment && !strings.HasPrefix(toks[sig[end]].text, "/*!") {
+				end-- // (a MySQL executable comment is part of the statement: the semicolon goes behind it)
 			}
 			if end < 0 {
 				break
